@@ -92,7 +92,10 @@ def build(desc, order=None, edge_order=None):
             nd.is_viable = d['is_viable']
         if d.get('is_necessary') is not None:
             nd.is_necessary = d['is_necessary']
-        g.add_node(nd)
+        if desc.get('ids'):
+            g.add_node(nd, node_id=desc['ids'][i])     # explicit ids, in any order (as after loading a file)
+        else:
+            g.add_node(nd)
         objs[i] = nd
     edges = desc['edges'] if edge_order is None else [desc['edges'][k] for k in edge_order]
     for i, j in edges:
